@@ -73,7 +73,7 @@ class C11(Prop):
     rule = ("soc / toc instances with 1-6 alternatives (ties at the top, complete indifference, planted single-peaked "
             "and perturbed profiles); all axes for m <= 4, 6 random axes otherwise; ILP on ~1/6 of the cases; all "
             "four functions on soi/toi for the guards; non-trivial = >= 2 orders and >= 3 alternatives")
-    budget = {"quick": 240, "thorough": 2400}
+    budget = {"quick": 240, "thorough": 6000}
     anchors = [("preflibtools.properties.subdomains.ordinal.singlepeaked.singlepeakedness", n) for n in
                ("is_single_peaked_axis", "sp_cons_ones_matrix", "is_single_peaked_pq_tree", "is_single_peaked_ILP",
                 "sp_ILP_trans_cstr", "sp_ILP_total_cstr", "sp_ILP_pos_cstr", "sp_ILP_cons_ones_cstr")] + \
